@@ -8,6 +8,7 @@ CONSTANTS
   Alphabet <- NoOps
   PreOps <- PreSibQuick
   SibFields <- SibAll
+  SidPairs <- NoSid
   TamperMax = 0
 INVARIANTS TypeOK PIdStable PRoundTrip PRedactKeeps PV12 PBuildOrRefuse PSibling PSiblingHash Emit
 CHECK_DEADLOCK FALSE
